@@ -602,7 +602,7 @@ func c08Corpus(c *vk.Ctx, i int) {
 	nReq := c.Pick(10, 16)
 	forms := []string{"score", "all", "sort-k", "sort-n", "sort-d-id", "sort-id"}
 	for qn := 0; qn < nReq; qn++ {
-		q := model.GenQuery(r, co, model.QueryOpts{Kinds: []string{"term", "term", "match", "matchphrase", "prefix", "wildcard", "fuzzy", "termrange", "numrange", "daterange", "all", "kwterm", "multiphrase", "regexp"}}, 2)
+		q := model.GenQuery(r, co, model.QueryOpts{Kinds: []string{"term", "term", "match", "matchphrase", "prefix", "wildcard", "fuzzy", "termrange", "numrange", "daterange", "all", "kwterm", "idterm", "multiphrase", "regexp"}}, 2)
 		if q.Kind == "fuzzy" && q.Fuzz == 0 {
 			q.Fuzz = 1
 		}
